@@ -19,7 +19,7 @@ pub fn property() -> Property {
                 name: "games",
                 quick: 4_000,
                 thorough: 100_000,
-                single_shard: false,
+                single_shard: false, supplementary: false,
                 run: |cfg| run_part(cfg, gen::raw_playout(300), |r| gen::play(r, ClockDomain::Board).to_game(), check_game),
                 replay: |v| replay_case::<Game, _>(v, check_game),
             },
@@ -27,7 +27,7 @@ pub fn property() -> Property {
                 name: "all_moves",
                 quick: 20_000,
                 thorough: 1_000_000,
-                single_shard: false,
+                single_shard: false, supplementary: false,
                 run: |cfg| run_part(cfg, gen::raw_pos(60), |r| PosCase { fen: gen::position(r, ClockDomain::Board).fen() }, check_all_moves),
                 replay: |v| replay_case::<PosCase, _>(v, check_all_moves),
             },
